@@ -12,6 +12,7 @@
   hypothesis says so.  Antisymmetry, totality, the type order and the compound rule hold for ALL terms.
 -/
 import PrologVerif.Proofs.OrderModel
+import PrologVerif.Proofs.OrderExtra
 import PrologVerif.Proofs.SortGeneric
 import PrologVerif.Generated.Bootstrap
 namespace PrologVerif.C08
@@ -70,6 +71,25 @@ theorem compare_nan_witness :
     (by decide +kernel) (by decide +kernel)
   revert this
   decide +kernel
+
+/-- "structurally identical modulo float ==" made concrete: two NaN-free terms are identical iff
+    they are EQUAL after every -0.0 is replaced by 0.0.  So `compare` answers `=` exactly when the
+    canonical forms coincide. -/
+theorem compare_eq_iff_canonical (x y : Term) (hx : noNaN x = true) (hy : noNaN y = true) :
+    Order.compare x y = .eq ↔ normZero x = normZero y := by
+  rw [compare_refl_iff_identical x y hx hy]
+  exact identical_iff_normZero x y hx hy
+
+/-- **compare_var_order_independent**: the ONLY implementation-dependent part of the order is the
+    relative order of two distinct unbound variables: if the comparison of `x` and `y` does not
+    reach such a pair before it is decided (`hingesOnVars`), the outcome is the same under every
+    renumbering `ρ` of the variables (order preserving or not, injective or not). -/
+theorem compare_var_order_independent (ρ : Nat → Nat) (x y : Term)
+    (hx : noNaN x = true) (hy : noNaN y = true) (h : hingesOnVars x y = false) :
+    Order.compare (renameVars ρ x) (renameVars ρ y) = Order.compare x y := by
+  rw [compare_eq_spec x y hx hy,
+    compare_eq_spec _ _ (by rw [noNaN_rename]; exact hx) (by rw [noNaN_rename]; exact hy)]
+  exact std_rename ρ x y hx hy h
 
 /-- **compare_type_order**: Var < Float < Integer < Atom < stream < Compound, for ALL terms;
     in particular `1.0 @< 1` (by type, not by value). -/
@@ -137,6 +157,8 @@ theorem bootstrap_order_clauses_tied :
     the property leaves implementation dependent for calls through a clause head -/
 def TopVars (t1 t2 : Term) : Prop := ∃ a b, t1 = .var a ∧ t2 = .var b ∧ a ≠ b
 
+/-- the renaming done by the head unification does not change the outcome unless both arguments
+    are distinct unbound variables -/
 theorem headArgs_compare (n : Nat) (t1 t2 : Term) (h : ¬ TopVars t1 t2) :
     Order.compare (headArgs n t1 t2).1 (headArgs n t1 t2).2 = Order.compare t1 t2 := by
   cases t1 <;> cases t2 <;>
@@ -145,27 +167,6 @@ theorem headArgs_compare (n : Nat) (t1 t2 : Term) (h : ¬ TopVars t1 t2) :
   by_cases e : a = b
   · simp [e, cmpNat, Order.compare, compareVar]
   · exact absurd ⟨a, b, rfl, rfl, e⟩ h
-
-theorem callOrderOp_eq (n : Nat) (t1 t2 : Term) :
-    callOrderOp n "@<" t1 t2 = some (if Order.compare (headArgs n t1 t2).1 (headArgs n t1 t2).2 = .lt then 1 else 0) ∧
-    callOrderOp n "@=<" t1 t2 = some (if Order.compare (headArgs n t1 t2).1 (headArgs n t1 t2).2 ≠ .gt then 1 else 0) ∧
-    callOrderOp n "@>" t1 t2 = some (if Order.compare (headArgs n t1 t2).1 (headArgs n t1 t2).2 = .gt then 1 else 0) ∧
-    callOrderOp n "@>=" t1 t2 = some (if Order.compare (headArgs n t1 t2).1 (headArgs n t1 t2).2 ≠ .lt then 1 else 0) ∧
-    callOrderOp n "==" t1 t2 = some (if Order.compare (headArgs n t1 t2).1 (headArgs n t1 t2).2 = .eq then 1 else 0) ∧
-    callOrderOp n "\\==" t1 t2 = some (if Order.compare (headArgs n t1 t2).1 (headArgs n t1 t2).2 ≠ .eq then 1 else 0) := by
-  have inner : Order.compare (headArgs (n + 2) (headArgs n t1 t2).1 (headArgs n t1 t2).2).1
-      (headArgs (n + 2) (headArgs n t1 t2).1 (headArgs n t1 t2).2).2
-      = Order.compare (headArgs n t1 t2).1 (headArgs n t1 t2).2 := by
-    cases t1 <;> cases t2 <;>
-      simp [headArgs, Order.compare, compareVar, compareFloat, compareInt, compareAtom, compareStream]
-    rename_i a b
-    by_cases e : a = b
-    · simp [e, headArgs, cmpNat, Order.compare, compareVar]
-    · simp [e, headArgs, cmpNat, Order.compare, compareVar]
-  refine ⟨?_, ?_, ?_, ?_, ?_, ?_⟩ <;>
-    simp only [callOrderOp, solveOp, orderClauses, Term.a1, Term.a2, Term.a3, List.foldl, inner] <;>
-    generalize Order.compare (headArgs n t1 t2).1 (headArgs n t1 t2).2 = o <;>
-    cases o <;> simp [orderAtom]
 
 /-- **order_ops_from_compare**: through the tied bootstrap clauses each of the six operators
     succeeds exactly once or not at all, according to the outcome of `compare`:
@@ -196,10 +197,6 @@ theorem order_ops_distinct_vars (n a b : Nat) (h : a ≠ b) :
   simpa using this
 
 /-! ### sort/2 = `Env.set` -/
-
-theorem compare_eq_std_on (l : List Term) (h : ∀ t ∈ l, noNaN t = true) :
-    ∀ x ∈ l, ∀ y ∈ l, Order.compare x y = stdCompare x y :=
-  fun x hx y hy => compare_eq_std x y (h x hx) (h y hy)
 
 /-- **set_spec**: whatever arrangement `p` of the elements `sort.Slice` produces — ANY permutation
     that is ascending w.r.t. the order — removing adjacent duplicates yields a strictly ascending
@@ -248,6 +245,7 @@ theorem set_algorithm_independent (s1 s2 : List Term → List Term) (ts : List T
   intro t ht
   exact hn t (h2.1.mem_iff.mp (mem_of_mem_dedupFrom _ _ none t ht))
 
+/-- the model's executable sorter (stable insertion sort) meets the `sort.Slice` contract -/
 theorem insertionSort_contract (ts : List Term) (hn : ∀ t ∈ ts, noNaN t = true) :
     SliceContract (insertionSort Order.compare) ts := by
   refine ⟨insertionSort_perm ts, ?_⟩
@@ -263,6 +261,7 @@ theorem set_model (ts : List Term) (hn : ∀ t ∈ ts, noNaN t = true) :
     IsSetOf Order.compare ts (Order.set (insertionSort Order.compare) ts) :=
   (set_spec ts _ hn (insertionSort_contract ts hn).1 (insertionSort_contract ts hn).2).1
 
+/-- the answer of sort/2 only contains elements of the input (so it is NaN-free when the input is) -/
 theorem noNaN_of_set {s : List Term → List Term} {ts : List Term} (hn : ∀ t ∈ ts, noNaN t = true)
     (h : SliceContract s ts) : ∀ t ∈ Order.set s ts, noNaN t = true :=
   fun t ht => hn t (h.1.mem_iff.mp (mem_of_mem_dedupFrom _ _ none t ht))
@@ -311,6 +310,29 @@ theorem eqvLists_identical : ∀ (l r : List Term), (∀ t ∈ l, noNaN t = true
     rcases hp with rfl | hp
     · exact (compare_refl_iff_identical a b (hl a (by simp)) (hr b (by simp))).mp h.1
     · exact ih2 p hp
+
+/-- **set_canonical**: with every -0.0 printed as 0.0 (the canonical form of `=`), the answer of
+    sort/2 is the SAME list for every sorting procedure that meets the contract — this is the
+    canonicalisation the correspondence stream `c08.sort` applies to both sides. -/
+theorem set_canonical (s1 s2 : List Term → List Term) (ts : List Term)
+    (hn : ∀ t ∈ ts, noNaN t = true) (h1 : SliceContract s1 ts) (h2 : SliceContract s2 ts) :
+    (Order.set s1 ts).map normZero = (Order.set s2 ts).map normZero := by
+  have e := set_algorithm_independent s1 s2 ts hn h1 h2
+  have n1 := noNaN_of_set hn h1
+  have n2 := noNaN_of_set hn h2
+  revert e n1 n2
+  generalize Order.set s1 ts = l
+  generalize Order.set s2 ts = r
+  intro e n1 n2
+  induction l generalizing r with
+  | nil => cases r <;> simp_all [EqvLists]
+  | cons a l ih =>
+    cases r with
+    | nil => simp_all [EqvLists]
+    | cons b r =>
+      simp only [List.map_cons, List.cons.injEq]
+      exact ⟨(compare_eq_iff_canonical a b (n1 a (by simp)) (n2 b (by simp))).mp e.1,
+        ih r e.2 (fun t ht => n1 t (by simp [ht])) (fun t ht => n2 t (by simp [ht]))⟩
 
 /-! ### keysort/2 -/
 
@@ -371,6 +393,13 @@ theorem keysort_builtin (sorter : List Term → List Term) (xs : List Term) (v :
 /-! ### non-vacuity -/
 
 example : noNaN (Term.list [.flt 0x3FF0000000000000, .atom "a", .var 3]) = true := by decide +kernel
+example : hingesOnVars (Term.a2 "f" (.atom "a") (.var 1)) (Term.a2 "f" (.atom "b") (.var 2)) = false := by
+  decide +kernel                               -- decided at the first argument, the variables are never reached
+example : hingesOnVars (Term.a2 "f" (.var 1) (.atom "a")) (Term.a2 "f" (.var 2) (.atom "b")) = true := by
+  decide +kernel
+example : SliceContract (insertionSort Order.compare) [.atom "b", .flt 0, .atom "a", .var 2] :=
+  insertionSort_contract _ (by decide +kernel)
+example : normZero (Term.a1 "f" (.flt 0x8000000000000000)) = Term.a1 "f" (.flt 0) := by decide +kernel
 example : Order.compare (.int 1) (.flt 0x3FF0000000000000) = .gt := by decide +kernel   -- 1 vs 1.0: by type
 example : Order.compare (.flt 0) (.flt 0x8000000000000000) = .eq := by decide +kernel  -- 0.0 vs -0.0
 example : identical (.flt 0) (.flt 0x8000000000000000) = true := by decide +kernel
